@@ -7,7 +7,7 @@ from pyPRISM.core.IdentityMatrixArray import IdentityMatrixArray
 from pyPRISM.core.Space import Space
 
 RULE = ("random op sequences over MatrixArray objects (rank 1-5, length 1-64 quick / thorough, every operator {+,-,*,/} x operand kind "
-        "{MatrixArray same length, length-1 NonSpatial MatrixArray, scalar, (L,1,1) array, (n,n) array, (L,n,n) array} x {in-place, out-of-place}, "
+        "{MatrixArray same length, length-1 NonSpatial MatrixArray, scalar, (L,1,1) array, (n,n) array, (n,) vector (also with length == rank), (L,n,n) array, the scalar 1.0} x {in-place, out-of-place}, "
         "dot/@/@=, invert (in/out of place), get_copy, pair assignment/reading by type name incl. unknown names, all 9 space-flag pairs); after EVERY op "
         "all objects (shape, flag, data, np.shares_memory classes) are compared with the Lean heap model and with an independent per-matrix NumPy shadow; "
         "non-trivial = >= 3 ops incl. >= 1 in-place op and >= 2 live objects; distinct = distinct op list")
@@ -34,6 +34,7 @@ def rhs_py(objs, r, L, n):
     a = np.array(r[1], dtype=float)
     if kind == 'pp': return a.reshape((-1, 1, 1))
     if kind == 'pm': return a.reshape((n, n))
+    if kind == 'vec': return a.reshape((n,))
     return a.reshape((L, n, n))
 
 def rhs_line(r):
@@ -47,6 +48,7 @@ def rhs_shadow(shadow, r, L, n):
     a = np.array(r[1], dtype=float)
     if r[0] == 'pp': return a.reshape((-1, 1, 1))
     if r[0] == 'pm': return a.reshape((n, n))
+    if r[0] == 'vec': return a.reshape((n,))
     return a.reshape((L, n, n))
 
 def space_ok(a, b):
@@ -62,7 +64,7 @@ def suite_ops(ctx, case):
         try:
             if k == 'new':
                 L, n = op['L'], op['n']
-                types = NAMES[:n]
+                types = [NAMES[q] for q in op.get('perm', list(range(n)))]
                 if op.get('identity'):
                     o = IdentityMatrixArray(length=L, rank=n, space=SP[op['sp']], types=types)
                     data = np.array([np.eye(n)] * L)
@@ -123,7 +125,7 @@ def suite_ops(ctx, case):
                 line = 'ma.copy %d' % op['k']
             elif k == 'setpair':
                 A = objs[op['k']]; n = A.rank
-                nm = lambda i: NAMES[i] if i < n else 'zz%d' % i
+                nm = lambda i: A.types[i] if i < n else 'zz%d' % i
                 line = 'ma.setpair %d %d %d %s' % (op['k'], op['i'], op['j'], fl(op['v']))
                 exp_refused = op['i'] >= n or op['j'] >= n
                 A[nm(op['i']), nm(op['j'])] = np.array(op['v'], dtype=float)
@@ -159,15 +161,15 @@ def suite_ops(ctx, case):
         if objs and k in ('setpair', 'binop', 'dot') and impl_out == 'ok':
             A = objs[-1] if k != 'setpair' else objs[op['k']]
             n = A.rank; i, j = (op.get('i', 0) % n, op.get('j', n - 1) % n)
-            g1 = A[NAMES[i], NAMES[j]]; kk = objs.index(A)
+            g1 = A[A.types[i], A.types[j]]; kk = objs.index(A)
             ctx.corr('ops', sub, drv.ask('ma.getpair %d %d %d' % (kk, i, j)), fl(g1), rtol=tol, scale=scale, what='A[a,b]')
-            sym = k != 'setpair' or np.array_equal(A[NAMES[j], NAMES[i]], g1)
+            sym = k != 'setpair' or np.array_equal(A[A.types[j], A.types[i]], g1)
             ctx.pred('ops', sub, sym, 'A[a,b] != A[b,a] after assignment', key='C13:setitem-symmetric')
     # unknown type on read
     if objs:
         A = objs[0]
         try:
-            A['nope', NAMES[0]]; r = 'no error'
+            A['nope', A.types[0]]; r = 'no error'
         except ValueError:
             r = 'ERR ValueError'
         ctx.corr('ops', {'ops': case['ops'], 'read': 'unknown'}, drv.ask('ma.getpair 0 %d 0' % (A.rank + 3)), r)
@@ -184,11 +186,12 @@ def rnd_matrix(rng, L, n):
     return d
 
 def gen_case(rng, max_ops, maxL):
-    n = rng.choice([1, 2, 2, 3, 3, 4, 5]); L = rng.choice([1, 2, 3, 5, 8, rng.randint(1, maxL)])
+    n = rng.choice([1, 2, 2, 3, 3, 4, 5]); L = rng.choice([1, 2, 3, 5, 8, n, n, rng.randint(1, maxL)])     # length == rank is a broadcasting trap
     ops = []; meta = []     # meta: (L, space, cond_ok)
     def new(L_, sp=None, identity=False):
         sp = sp or rng.choice(['R', 'F', 'N'])
         o = {'op': 'new', 'L': L_, 'n': n, 'sp': sp}
+        if rng.random() < 0.4: o['perm'] = rng.sample(range(n), n)      # this object's type labels are a permutation of the others'
         if identity: o['identity'] = True
         else:
             o['data'] = rnd_matrix(rng, L_, n); o['zeros_then_fill'] = rng.random() < 0.3
@@ -202,9 +205,10 @@ def gen_case(rng, max_ops, maxL):
         c = rng.choice(['binop', 'binop', 'binop', 'dot', 'invert', 'copy', 'setpair'])
         if c == 'binop':
             f = rng.choice(['add', 'sub', 'mul', 'div'])
-            kind = rng.choice(['obj', 'obj', 'scalar', 'pp', 'pm', 'full'])
+            kind = rng.choice(['obj', 'obj', 'scalar', 'scalar', 'pp', 'pm', 'vec', 'full'])
             if kind == 'obj': rhs = ['obj', rng.randrange(len(meta))]
-            elif kind == 'scalar': rhs = ['scalar', round(rng.uniform(0.5, 3.0), 4)]
+            elif kind == 'scalar': rhs = ['scalar', rng.choice([1.0, 1.0, round(rng.uniform(0.5, 3.0), 4), round(rng.uniform(0.5, 3.0), 4)])]
+            elif kind == 'vec': rhs = ['vec', [round(rng.uniform(0.5, 2.0), 4) for _ in range(n)]]
             elif kind == 'pp': rhs = ['pp', [round(rng.uniform(0.5, 2.0), 4) for _ in range(L)]]
             elif kind == 'pm': rhs = ['pm', [round(rng.uniform(0.5, 2.0), 4) for _ in range(n * n)]]
             else: rhs = ['full', [round(rng.uniform(0.5, 2.0), 4) for _ in range(L * n * n)]]
